@@ -20,6 +20,7 @@ EXPLANATION = (
     "constructing function — the renderer parses it again with expect(); (X) imported: the cycle-breaking rules of C07, "
     "has_impl⇒emitted of C17, the Deserialize pairing and derive guards of C19, validator⊆renderer, finalisation and "
     "registration of shared default functions of C06, and the map-type agreement of C14."
+    " (T3, ready-made lists) `#variant #fields,` where #fields is a parenthesised list built elsewhere is emitted only under a test of the arity."
 )
 ASSUMPTIONS = ["syn's grammar is the definition of 'parses'", "ingestion-time panics (todo!/unimplemented! on unsupported schema shapes) are listed as information, not decided"]
 
@@ -398,7 +399,7 @@ def rule_W1(facts, rep, c):
     # I11: internally tagged enums only hold Simple / Struct variants
     mk = [h for h in c.user_fns() if any(x.get("k") == "struct" and "rest" not in x and x["path"].endswith("EnumTagType::Internal") for x, _ in walk(h["body"]))]
     if mk:
-        helpers = [x for x in calls_in(mk[0]["body"]) if x in c.hir and c.fns[x]["output"].endswith("Variant, Error>")]
+        helpers = [x for x in calls_in(mk[0]["body"]) if x in c.hir and re.search(r"\bVariant\b[^<]*Error>$", c.fns[x]["output"])]
         kinds_ = set()
         for q in helpers:
             for x, _ in walk(c.hir[q]["body"]):
